@@ -1,6 +1,7 @@
 (** Commands.v — the command table of the model runner. Every command maps
     a [val] to a [val]; the OCaml driver only parses and prints. *)
 From JSL Require Import Base Instance Dstate Filters World Observers Session Feasible.
+From JSL Require CmdC03 CmdC14 CmdC15 CmdC16 CmdC19 CmdC20.
 
 Definition cmd_feasible (v : val) : val :=
   let I := dec_instance (vnth v 0) in
@@ -13,10 +14,24 @@ Definition cmd_feasible_many (v : val) : val :=
   VL (map (fun r => let S := dec_sched r in
                     VL (map vbool (feasible_clauses I S ++ [completeb I S]))) (asL (vnth v 1))).
 
-Definition run_cmd (c : Z) (v : val) : val :=
+(** Commands < 100: the dispatcher world (this file). Commands [100*k + n]:
+    property Ck's own table ([CmdCk.run_ck n]). *)
+Definition run_core (c : Z) (v : val) : val :=
   match c with
   | 1 => cmd_session v
   | 2 => cmd_feasible v
   | 3 => cmd_feasible_many v
+  | _ => VL []
+  end.
+
+Definition run_cmd (c : Z) (v : val) : val :=
+  match c / 100 with
+  | 0 => run_core c v
+  | 3 => CmdC03.run_c03 (c mod 100) v
+  | 14 => CmdC14.run_c14 (c mod 100) v
+  | 15 => CmdC15.run_c15 (c mod 100) v
+  | 16 => CmdC16.run_c16 (c mod 100) v
+  | 19 => CmdC19.run_c19 (c mod 100) v
+  | 20 => CmdC20.run_c20 (c mod 100) v
   | _ => VL []
   end.
